@@ -16,7 +16,7 @@
 use egg::Id;
 use rlverif::risinglight::array::*;
 use rlverif::risinglight::catalog::ColumnRefId;
-use rlverif::risinglight::planner::{Expr, RecExpr};
+use rlverif::risinglight::planner::{Expr, ExprAnalysis, RecExpr};
 use rlverif::risinglight::storage::{Storage, StorageImpl, Table, Transaction};
 use rlverif::risinglight::types::{DataType, DataValue};
 use rlverif::risinglight::Database;
@@ -462,6 +462,123 @@ fn oracle(e: &Sexp, warrs: &[WArr], n: usize, whole: &str) -> String {
     }
 }
 
+
+// ---------------------------------------------------------------------------------------------
+// constant folding: `eval_constant` (ExprAnalysis) vs run-time evaluation, optimizer on vs off
+// ---------------------------------------------------------------------------------------------
+
+fn show_value(v: &DataValue) -> String {
+    match v {
+        DataValue::String(s) => format!("s:{}", hex(s.as_bytes())),
+        other => canon_value(other),
+    }
+}
+
+/// The `constant` analysis of the expression's root e-class after adding it to an e-graph.
+fn fold_real(e: &Sexp) -> String {
+    let r = catch(|| {
+        let mut expr = RecExpr::default();
+        to_recexpr(e, &mut expr, &[]);
+        let mut egraph = egg::EGraph::<Expr, ExprAnalysis>::new(ExprAnalysis::default());
+        let id = egraph.add_expr(&expr);
+        egraph[id].data.constant.clone()
+    });
+    match r {
+        Err(_) => "panic".into(),
+        Ok(None) => "none".into(),
+        Ok(Some(v)) => format!("some {}", show_value(&v)),
+    }
+}
+
+fn sql_of(e: &Sexp) -> Option<String> {
+    Some(match e {
+        Sexp::Atom(t) => {
+            if t == "null" { "NULL".into() } else {
+                let (tag, rest) = t.split_once(':')?;
+                match tag {
+                    "b" => rest.to_string(),
+                    "i32" => if rest.starts_with('-') { format!("({rest})") } else { rest.to_string() },
+                    "i16" => format!("cast({rest} as smallint)"),
+                    "i64" => format!("cast({rest} as bigint)"),
+                    "s" => {
+                        let txt = String::from_utf8(unhex(rest)?).ok()?;
+                        if txt.contains('\'') || txt.contains('\n') { return None; }
+                        format!("'{txt}'")
+                    }
+                    _ => return None,
+                }
+            }
+        }
+        Sexp::List(l) => {
+            let op = l[0].as_atom()?;
+            match (op, l.len()) {
+                ("not", 2) => format!("(not {})", sql_of(&l[1])?),
+                ("neg", 2) => format!("(- {})", sql_of(&l[1])?),
+                ("isnull", 2) => format!("({} is null)", sql_of(&l[1])?),
+                ("cast", 3) => {
+                    let t = match l[1].as_atom()? { "BOOLEAN" => "boolean", "SMALLINT" => "smallint", "INT" => "int", "BIGINT" => "bigint", _ => "varchar" };
+                    format!("cast({} as {t})", sql_of(&l[2])?)
+                }
+                ("if", 4) => format!("(case when {} then {} else {} end)", sql_of(&l[1])?, sql_of(&l[2])?, sql_of(&l[3])?),
+                ("in", 3) => {
+                    let items: Option<Vec<String>> = l[2].as_list()?[1..].iter().map(sql_of).collect();
+                    format!("({} in ({}))", sql_of(&l[1])?, items?.join(", "))
+                }
+                (_, 3) if ["+", "-", "*", "/", "%", "=", "<>", ">", "<", ">=", "<=", "and", "or", "||"].contains(&op) =>
+                    format!("({} {op} {})", sql_of(&l[1])?, sql_of(&l[2])?),
+                _ => return None,
+            }
+        }
+    })
+}
+
+fn sql_value(rt: &tokio::runtime::Runtime, optimize: bool, sql: &str) -> String {
+    let r = catch(|| {
+        rt.block_on(async {
+            let db = Database::new_in_memory();
+            let chunks = if optimize {
+                db.run(sql).await.map_err(|e| e.to_string())?.last().map(|c| c.data_chunks().to_vec()).unwrap_or_default()
+            } else {
+                let plans = db.verif_bind(sql).map_err(|e| format!("bind {e}"))?;
+                db.verif_run_plan(plans.last().ok_or("no plan")?).await.map_err(|e| e.to_string())?
+            };
+            Ok::<_, String>(chunks)
+        })
+    });
+    match r {
+        Err(_) => "panic".into(),
+        Ok(Err(m)) if m.starts_with("bind ") => "binderr".into(),
+        Ok(Err(_)) => "err".into(),
+        Ok(Ok(chunks)) => {
+            let rows: usize = chunks.iter().map(|c| c.cardinality()).sum();
+            if rows == 0 { return "norows".into(); }
+            format!("ok {}", show_value(&chunks[0].array_at(0).get(0)))
+        }
+    }
+}
+
+fn run_fold(rt: &tokio::runtime::Runtime, e: &Sexp) -> String {
+    let fold = fold_real(e);
+    let rtv = match catch(|| eval_direct(e, &[], 1)) {
+        Err(_) => "panic".to_string(),
+        Ok(Err(_)) => "err".to_string(),
+        Ok(Ok(a)) => format!("ok {}", show_value(&a.get(0))),
+    };
+    let (o, n) = match sql_of(e) {
+        Some(sql) => {
+            let q = format!("select {sql}");
+            (sql_value(rt, true, &q), sql_value(rt, false, &q))
+        }
+        None => ("-".to_string(), "-".to_string()),
+    };
+    format!("fold={fold} ;; rt={rtv} ;; sqlopt={o} ;; sqlnoopt={n}")
+}
+
+/// constant expression of (static) type `ty`
+fn gen_const_expr(g: &mut Gen, ty: &str, depth: u32) -> String {
+    g.expr(ty, &[], depth)
+}
+
 // ---------------------------------------------------------------------------------------------
 // generator
 // ---------------------------------------------------------------------------------------------
@@ -612,6 +729,25 @@ impl Gen {
 
 fn gen_request(g: &mut Gen) -> String {
     g.boundary = g.r.chance(3, 10);
+    if g.r.chance(1, 8) {
+        // constant expression: folding vs run time, optimizer on vs off
+        let ty = *g.r.pick(&["i32", "i64", "bool", "bool", "str", "i16", "i32"]);
+        let d = 1 + g.r.below(3) as u32;
+        // IN is not folded by eval_constant but is desugared by the model: keep it out of this stream
+        let mut e = gen_const_expr(g, ty, d);
+        while e.contains("(in ") {
+            e = gen_const_expr(g, ty, d);
+        }
+        if g.r.chance(1, 3) {
+            // NULL literal operands (untyped NULL constant)
+            e = match ty {
+                "bool" => format!("({} {} null)", g.r.pick(&["and", "or"]), e),
+                "str" => format!("(|| {e} null)"),
+                _ => format!("({} {e} null)", g.r.pick(&["+", "*", "="])),
+            };
+        }
+        return format!("(f {e})");
+    }
     let n = g.len();
     if g.r.chance(1, 2) {
         // kernel request: one operator directly over columns
@@ -689,6 +825,10 @@ fn main() {
                 let req = Sexp::parse(&line).expect("request");
                 let l = req.as_list().unwrap();
                 let kind = l[0].as_atom().unwrap();
+                if kind == "f" {
+                    println!("{}", run_fold(&rt, &l[1]));
+                    continue;
+                }
                 let n: usize = l[1].as_atom().unwrap().parse().unwrap();
                 let e = &l[2];
                 let warrs: Vec<WArr> = l[3..].iter().map(parse_arr).collect();
